@@ -1108,6 +1108,64 @@ def gen_download(ck, tmp):
 # ------------------------------------------------------------------ entry points
 
 
+def gen_shared_instance(ck):
+    """Several datasets requested from ONE generator object before any is consumed (the pattern of the
+    repository's own fixtures), then consumed one after the other or alternately: each dataset must follow
+    the concept it was requested with."""
+    from frouros.datasets.synthetic import SEA, Dummy
+
+    rng = ck.rng
+    ck.rule("shared instance: 2-4 datasets requested up front from one SEA / Dummy object (different blocks / classes), consumed in order, in reverse or alternately; every sample labelled by the concept of ITS dataset (exact rational rule, ties skipped)")
+    THR = {1: 8.0, 2: 9.0, 3: 7.0, 4: 9.5}
+    for it in range(12 if ck.tier != "thorough" else 80):
+        seed = rng.choice([0, 1, 31, rng.randrange(2**31)])
+        blocks = rng.sample([1, 2, 3, 4], rng.choice([2, 3, 4]))
+        n = rng.choice([30, 80])
+        order = rng.choice(["in-order", "reverse", "alternate"])
+        sea = SEA(seed=seed)
+        gens = [iter(sea.generate_dataset(block=b_, noise=0.0, num_samples=n)) for b_ in blocks]
+        got = [[] for _ in blocks]
+        if order == "alternate":
+            for _ in range(n):
+                for k, g in enumerate(gens):
+                    got[k].append(next(g))
+        else:
+            for k in (range(len(gens)) if order == "in-order" else reversed(range(len(gens)))):
+                got[k] = list(gens[k])
+        case = dict(seed=seed, blocks=blocks, n=n, order=order)
+        ck.case(dict(kind="shared-sea", **case), nontrivial=True, key=repr(case))
+        bad = None
+        for k, b_ in enumerate(blocks):
+            if len(got[k]) != n:
+                bad = dict(clause="gen_count", what=f"dataset {k} has {len(got[k])} samples")
+                break
+            for j, (X, y) in enumerate(got[k]):
+                lab, tie = exact_sea_label(float(X[0]), float(X[1]), THR[b_])
+                if tie:
+                    ck.near_ties += 1
+                    continue
+                if int(y) != lab:
+                    bad = dict(clause="sea_labels", what=f"dataset {k} (block {b_}) sample {j}: label {int(y)} but x0+x1={float(X[0]) + float(X[1])} vs threshold {THR[b_]}")
+                    break
+            if bad:
+                break
+        if bad:
+            ck.violation(dict(clause=bad["clause"], generator="SEA", rng="seeded", usage="shared-instance"), dict(kind_="shared_sea", case=case, what=bad["what"]))
+        # Dummy: two classes from one object
+        dm = Dummy(seed=seed)
+        gens = [iter(dm.generate_dataset(class_=c, num_samples=n)) for c in (0, 1)]
+        got = [[], []]
+        for _ in range(n):
+            for k, g in enumerate(gens):
+                got[k].append(next(g))
+        for c in (0, 1):
+            for j, (X, y) in enumerate(got[c]):
+                lab, tie = exact_dummy_label(float(X[0]), float(X[1]), c)
+                if not tie and int(y) != lab:
+                    ck.violation(dict(clause="dummy_labels", generator="Dummy", rng="seeded", usage="shared-instance"), dict(kind_="shared_dummy", case=dict(seed=seed, n=n), what=f"class {c} sample {j}: label {int(y)}"))
+                    break
+
+
 def run(ck: Check):
     logging.getLogger("frouros").setLevel(logging.CRITICAL)
     logging.getLogger("frouros").propagate = False
@@ -1118,6 +1176,7 @@ def run(ck: Check):
     state = np.random.get_state()
     try:
         gen_generators(ck)
+        gen_shared_instance(ck)
         gen_arguments(ck)
         gen_download(ck, tmp)
         left = os.listdir(tmp)
